@@ -66,7 +66,7 @@ def check_design(sp, r, budget_max, tag, pos, det, params_changed=False):
     viol.append(('C04:%s:series-not-of-reported-geos' % tag, dict(info, len_lib=len(v['y']), len_want=len(y))))
     return viol, dc
   ref = R.diagnostics(x, y, sp.par)
-  cond = 4e-16 / max(1e-300, 1 - ref['corr'] ** 2) if ref['corr'] == ref['corr'] else 0
+  cond = 2e-15 / max(1e-300, 1 - ref['corr'] ** 2) if ref['corr'] == ref['corr'] else 0
   if not util.close(v['corr'], ref['corr'], 1e-9):
     viol.append(('C04:%s:corr' % tag, dict(info, lib=float(v['corr']), ref=ref['corr'])))
   if ref['required_impact'] is not None and not util.close(v['required_impact'], ref['required_impact'], 1e-9 + cond):
